@@ -399,6 +399,14 @@ def run_first_order_case(res, cfg):
     splits = [O.Split(A, g) for A, g in H.probe_splits(P, comps, n, (t0,))]
     QDs = [padded(info, slot, expl) for slot, expl in spec['slots']]
     right = bool(coll.right_is_node)
+    # (nearly) singular node systems I - dt*QD[m,m]*A_s: the sweep is then not a well-conditioned function of its inputs
+    # (values of 1e17 and a legitimate relative spread of cond*eps); counted, not judged, like the singular DAE systems
+    eye = np.eye(n)
+    for QD, sp_ in zip(QDs, splits):
+        for d in np.diag(QD)[1:]:
+            if d != 0 and np.linalg.cond((mass if mass is not None else eye) - dt * d * sp_.A) > 1e8:
+                res.outcomes['ill_conditioned_node_system'] += 1
+                return
     res.outcomes['checked'] += 1
     nontriv = any(np.any(np.abs(O.pad(Q) - QD) > 0) for QD in QDs)
     res.nontrivial += int(nontriv)
